@@ -124,6 +124,22 @@ def large_weight_models():
             P = np.array(perm)
             out.append(("complete p=%d w=%g relabelled %s" % (p, w, perm), W[P, :][:, P]))
             out.append(("chain p=%d w=%g relabelled %s" % (p, w, perm), C[P, :][:, P]))
+    # tiny positive weights (an edge is an entry != 0, however small), alone and next to a large weight that makes their effect visible
+    for t in (1e-13, 2.0 ** -60, 1e-100):
+        for perm in ((0, 1, 2), (2, 0, 1), (1, 2, 0)):
+            P = np.array(perm)
+            C = np.zeros((3, 3))
+            C[0, 1], C[1, 2] = t, 1.0 / t
+            out.append(("chain weights (%g, %g) relabelled %s" % (t, 1.0 / t, list(perm)), C[P, :][:, P]))
+            D = np.zeros((3, 3))
+            D[0, 1], D[1, 2], D[0, 2] = 1.0 / t, t, 1.0
+            out.append(("complete weights (%g, %g, 1) relabelled %s" % (1.0 / t, t, list(perm)), D[P, :][:, P]))
+        T = np.zeros((4, 4))
+        for i in range(4):
+            for j in range(i + 1, 4):
+                T[i, j] = t
+        out.append(("complete p=4 w=%g" % t, T))
+        out.append(("complete p=4 w=%g relabelled [3, 2, 1, 0]" % t, T[::-1, ::-1].copy()))
     return out
 
 
